@@ -24,6 +24,8 @@ CONSTANTS GUnit,      \* 1 or 262144
           MaxGlyphs, MaxSteps,
           LineRuns, CurveRuns,  \* run lengths
           FarJumps,   \* allow jumps between corners of the coordinate range (deltas up to 2*MaxG)
+          SweepOnly,  \* TRUE: every glyph after the first is exactly one stack-limit sweep (enumerated)
+          SweepA, SweepB,  \* delta magnitudes used by the sweeps (units)
           Sim
 
 Abs(v) == IF v < 0 THEN -v ELSE v
@@ -55,7 +57,7 @@ MaskBytes(dummy) == [i \in 1..MaskLen |-> Rnd({0, 1, 128, 255, 170})]
 
 StartGlyph ==
   /\ st = "new"
-  /\ \E p \in Pick(StemPlans) :
+  /\ \E p \in Pick(IF SweepOnly /\ Len(font) = 0 THEN {<<0, 0>>} ELSE StemPlans) :
        g' = [w |-> wp[(Len(font) % Len(wp)) + 1], hs |-> Edges(p[1], Len(font)), vs |-> Edges(p[2], Len(font) + 1),
              cmds |-> <<>>]
   /\ st' = "body" /\ x' = 0 /\ y' = 0 /\ steps' = 0 /\ moved' = FALSE
@@ -66,13 +68,13 @@ Add(cs, nx, ny) == /\ g' = [g EXCEPT !.cmds = @ \o cs] /\ x' = nx /\ y' = ny /\ 
                    /\ UNCHANGED <<font, st, ng, wp>>
 
 Mask ==
-  /\ Body /\ NStems > 0
+  /\ Body /\ NStems > 0 /\ ~SweepOnly
   /\ \E k \in (IF moved THEN {"hm"} ELSE {"hm", "cm"}) :
        Add(<< <<k>> \o MaskBytes(steps) >>, x, y)
   /\ UNCHANGED moved
 
 Move ==
-  /\ Body
+  /\ Body /\ ~SweepOnly
   /\ \E dx \in Pick(D), dy \in Pick(D) :
        /\ InRange(x + dx) /\ InRange(y + dy)
        /\ Add(<< <<"m", x + dx, y + dy>> >>, x + dx, y + dy)
@@ -80,7 +82,7 @@ Move ==
 
 \* jump to a corner of the coordinate range (the next delta can then be twice the range)
 Far ==
-  /\ Body /\ FarJumps
+  /\ Body /\ FarJumps /\ ~SweepOnly
   /\ \E k \in (IF moved THEN {"m", "l"} ELSE {"m"}) : \E fx \in Pick({-MaxG, MaxG}), fy \in Pick({-MaxG, 0, MaxG}) :
        Add(<< <<k, fx, fy>> >>, fx, fy)
   /\ moved' = TRUE
@@ -88,7 +90,7 @@ Far ==
 LineDelta(kind, a, b) == CASE kind = "gen" -> <<a, b>> [] kind = "h" -> <<a, 0>> [] kind = "v" -> <<0, b>>
                            [] kind = "zero" -> <<0, 0>>
 Line ==
-  /\ Body /\ moved
+  /\ Body /\ moved /\ ~SweepOnly
   /\ \E kind \in Pick({"gen", "gen", "h", "v", "zero"} \cup {"h", "v"}) : \E a \in Pick(NZ), b \in Pick(NZ) :
        LET d == LineDelta(kind, a, b) IN
        /\ InRange(x + d[1]) /\ InRange(y + d[2])
@@ -121,7 +123,7 @@ Abscurve(px, py, d) ==
    ok |-> InRange(ax) /\ InRange(ay) /\ InRange(bx) /\ InRange(by) /\ InRange(cx) /\ InRange(cy)]
 
 Curve ==
-  /\ Body /\ moved
+  /\ Body /\ moved /\ ~SweepOnly
   /\ \E p \in Pick(CurvePats) : \E nn \in Six(NZ), zz \in Six(D) :
        LET r == Abscurve(x, y, CurveDelta(p, nn, zz)) IN
        /\ r.ok /\ Add(<<r.cmd>>, r.px, r.py)
@@ -129,7 +131,7 @@ Curve ==
 
 \* two curves that qualify for hflex / hflex1 (the joining point and both ends on one height)
 FlexPair ==
-  /\ Body /\ moved
+  /\ Body /\ moved /\ ~SweepOnly
   /\ \E k \in Pick({"hflex", "hflex1"}) : \E n1 \in Six(NZ), n2 \in Six(NZ) :
        LET n(i) == IF i <= 6 THEN n1[i] ELSE n2[i - 6]
            dy2 == n(1)  dy1 == n(2)  dy5 == n(3)
@@ -159,7 +161,7 @@ RunSeg(kind, i, nn, zz) ==   \* relative deltas of segment i: a line <<dx,dy>> o
     [] kind = "mixed"    -> IF i % 3 = 0 THEN <<a, b, c, a, b, a>> ELSE <<a, b>>
 
 Run ==
-  /\ Body /\ moved
+  /\ Body /\ moved /\ ~SweepOnly
   /\ \E kind \in Pick(RunKinds) :
      \E k \in Pick(IF kind \in {"lines", "hvlines", "vhlines", "mixed"} THEN LineRuns ELSE CurveRuns) :
      \E nn \in Six(NZ), zz \in Six(D) :
@@ -176,13 +178,82 @@ Run ==
        IN /\ r.ok /\ Add(r.out, r.px, r.py)
   /\ UNCHANGED moved
 
+(***************************************************************************)
+(* Systematic stack-limit sweep.  For every operator form the encoder can  *)
+(* emit, one isolated subpath (move, run, move) whose single-operator      *)
+(* encoding would need limit-2 .. limit+2 operands: k diagonal lines       *)
+(* (rlineto), k alternating h/v lines, k curves of each aligned family,    *)
+(* k lines + curve (rlinecurve), k curves + line (rcurveline).  Variants   *)
+(* put a segment of another family first / in the middle / last, so that   *)
+(* the optimiser has alternatives; the stem plans and width patterns of    *)
+(* the sweep configuration put a width operand on the first operator.      *)
+(***************************************************************************)
+SweepForms == {"rlineto", "hvlineto", "vhlineto", "rrcurveto", "rlinecurve", "rcurveline",
+               "hhcurveto", "vvcurveto", "hvcurveto", "vhcurveto"}
+SweepK(f) == CASE f = "rlineto" -> 21..27                       \* 2k operands, limit k = 24
+               [] f \in {"hvlineto", "vhlineto"} -> 45..51      \* k operands
+               [] f = "rrcurveto" -> 6..10                      \* 6k, limit k = 8
+               [] f = "rlinecurve" -> 19..26                    \* 2k + 6, limit k = 21
+               [] f = "rcurveline" -> 5..9                      \* 6k + 2, limit k = 7
+               [] OTHER -> 10..14                               \* 4k (+1), limit k = 12
+SweepVars == {"plain", "first", "mid", "tail"}
+
+SweepSeg(f, i, a, b) ==          \* segment i of the run proper (relative deltas)
+  LET sg == IF i % 2 = 0 THEN 1 ELSE -1  p == sg * a  q == -sg * b IN
+  CASE f \in {"rlineto", "rlinecurve"} -> <<p, q>>
+    [] f = "hvlineto"  -> IF i % 2 = 1 THEN <<p, 0>> ELSE <<0, q>>
+    [] f = "vhlineto"  -> IF i % 2 = 1 THEN <<0, p>> ELSE <<q, 0>>
+    [] f \in {"rrcurveto", "rcurveline"} -> <<p, q, p, q, p, q>>
+    [] f = "hhcurveto" -> <<p, 0, q, p, q, 0>>
+    [] f = "vvcurveto" -> <<0, p, q, p, 0, q>>
+    [] f = "hvcurveto" -> IF i % 2 = 1 THEN <<p, 0, q, p, 0, q>> ELSE <<0, p, q, p, q, 0>>
+    [] f = "vhcurveto" -> IF i % 2 = 1 THEN <<0, p, q, p, q, 0>> ELSE <<p, 0, q, p, 0, q>>
+SweepAlt(f, i, a, b) ==          \* a segment of another family at position i
+  LET sg == IF i % 2 = 0 THEN 1 ELSE -1  p == sg * a  q == -sg * b IN
+  CASE f \in {"rlineto", "rlinecurve"} -> <<p, 0>>
+    [] f \in {"hvlineto", "vhlineto"} -> <<p, q>>
+    [] f \in {"rrcurveto", "rcurveline"} -> <<p, 0, q, p, 0, q>>
+    [] f = "hhcurveto" -> <<p, q, q, p, q, 0>>          \* leading dy1 when first
+    [] f = "vvcurveto" -> <<p, q, q, p, 0, q>>          \* leading dx1 when first
+    [] f = "hvcurveto" -> IF i % 2 = 1 THEN <<p, 0, q, p, p, q>> ELSE <<0, p, q, p, q, q>>   \* trailing operand when last
+    [] f = "vhcurveto" -> IF i % 2 = 1 THEN <<0, p, q, p, q, q>> ELSE <<p, 0, q, p, p, q>>
+SweepTrail(f, v, a, b) ==        \* the segment that closes the mixed forms
+  CASE f = "rlinecurve" -> IF v = "tail" THEN << <<a, 0, b, a, 0, b>> >> ELSE << <<a, b, a, b, a, b>> >>
+    [] f = "rcurveline" -> IF v = "tail" THEN << <<a, 0>> >> ELSE << <<a, b>> >>
+    [] OTHER -> <<>>
+
+Sweep ==
+  /\ Body
+  /\ SweepOnly => (steps = 0 /\ Len(font) > 0)
+  /\ \E f \in Pick(SweepForms) : \E k \in Pick(SweepK(f)) : \E v \in Pick(SweepVars) :
+     \E a \in Pick(SweepA), b \in Pick(SweepB) :
+       LET pos == CASE v = "first" -> 1 [] v = "mid" -> (k + 1) \div 2
+                    [] v = "tail" -> IF f \in {"rlinecurve", "rcurveline"} THEN 0 ELSE k
+                    [] OTHER -> 0
+           segs == [i \in 1..k |-> IF i = pos THEN SweepAlt(f, i, a, b) ELSE SweepSeg(f, i, a, b)]
+                   \o SweepTrail(f, v, a, b)
+           step(acc, d) ==
+             IF ~acc.ok THEN acc
+             ELSE IF Len(d) = 2
+             THEN LET nx == acc.px + d[1]  ny == acc.py + d[2] IN
+                  [px |-> nx, py |-> ny, ok |-> InRange(nx) /\ InRange(ny),
+                   out |-> Append(acc.out, <<"l", nx, ny>>)]
+             ELSE LET r == Abscurve(acc.px, acc.py, d) IN
+                  [px |-> r.px, py |-> r.py, ok |-> r.ok, out |-> Append(acc.out, r.cmd)]
+           r == FoldLeft(step, [px |-> 0, py |-> 0, ok |-> TRUE, out |-> <<>>], segs)
+       IN /\ r.ok
+          /\ (SweepOnly /\ NStems > 2) => (f = "rlineto" /\ k = 21 /\ v = "plain")
+          /\ Add(<< <<"m", 0, 0>> >> \o r.out \o << <<"m", a, b>> >>, a, b)
+  /\ moved' = TRUE
+
 EndGlyph ==
   /\ st = "body"
+  /\ SweepOnly => (steps = 1 \/ Len(font) = 0)      \* the first glyph (.notdef) stays empty
   /\ font' = Append(font, g) /\ g' = G0
   /\ st' = IF Len(font) + 1 = ng THEN "done" ELSE "new"
   /\ UNCHANGED <<x, y, steps, ng, wp, moved>>
 
-Next == StartGlyph \/ Mask \/ Move \/ Far \/ Line \/ Curve \/ FlexPair \/ Run \/ EndGlyph
+Next == StartGlyph \/ Mask \/ Move \/ Far \/ Line \/ Curve \/ FlexPair \/ Run \/ Sweep \/ EndGlyph
 Spec == Init /\ [][Next]_vars
 
 (***************************************************************************)
